@@ -213,7 +213,7 @@ def run_one(args):
         res["checks"] = checks
         caught = []
         for c in checks:
-            env2 = dict(os.environ, VERIF_REPO=tree, VERIF_OUT=os.path.join(tmp, "out"), VERIF_WORKERS="4")
+            env2 = dict(os.environ, VERIF_REPO=tree, VERIF_OUT=os.path.join(tmp, "out"), VERIF_WORKERS="8")
             r = subprocess.run([os.path.join(VERIF, "run_check.py"), c, "--tier", "quick"], env=env2, capture_output=True, text=True)
             if r.returncode == 1 and "VIOLATION" in r.stdout:
                 first = [ln_ for ln_ in r.stdout.splitlines() if ln_.startswith("[") or ln_.startswith("regression")]
